@@ -42,6 +42,9 @@ pub enum Op {
     /// batch of 3-4 pool cases in which members after the first carry a statement over FOREIGN parameters (kind 0: other h,
     /// 1: other g_0, 2: other bit length, 3: other degree, 4: none): refused - and always with the same error value
     BatchForeign { members: Vec<(u16, u8)>, mode: u8 },
+    /// the case's proof with one point (0: A, 1: A1, 2: B) replaced by ANOTHER valid encoding that shares its first `keep` bytes
+    /// (refused, of course) - and nothing of it may be remembered when the genuine proof is verified afterwards
+    VerifyPrefixTwin { case: u16, which: u8, keep: u8 },
 }
 
 #[derive(Clone, Debug, Serialize, Deserialize)]
@@ -74,6 +77,7 @@ fn op_strategy() -> impl Strategy<Value = Op> {
         1 => any::<u16>().prop_map(|case| Op::Codec { case }),
         2 => (any::<u16>(), 0u8..4).prop_map(|(case, model)| Op::ProveFaulty { case, model }),
         3 => (prop::collection::vec((any::<u16>(), 0u8..5), 3..=4), 0u8..3).prop_map(|(members, mode)| Op::BatchForeign { members, mode }),
+        3 => (any::<u16>(), 0u8..3, prop_oneof![Just(16u8), Just(8u8), Just(24u8), Just(31u8)]).prop_map(|(case, which, keep)| Op::VerifyPrefixTwin { case, which, keep }),
     ]
 }
 
@@ -254,6 +258,40 @@ fn exec(world: &World, op: &Op) -> Result<u64, String> {
             let r = guarded(|| RangeProof::verify_batch(&mut ts, &sts, &proofs, modes[*mode as usize % 3]))?;
             masks_digest(&r)
         },
+        Op::VerifyPrefixTwin { case, which, keep } => {
+            let c = &world.cases[pick(*case, n)];
+            let mut pf = Proof::parse_layout(&c.proof.to_bytes()).map_err(|e| format!("{:?}", e))?;
+            let slot: &mut [u8; 32] = match which % 3 {
+                0 => &mut pf.a,
+                1 => &mut pf.a1,
+                _ => &mut pf.b,
+            };
+            let orig = *slot;
+            // search the remaining bytes for another canonical encoding (about one candidate in eight decodes)
+            let mut ctr = 1u64;
+            loop {
+                let mut cand = orig;
+                let tail = hash_of(&(orig, ctr)).to_le_bytes();
+                for (i, b) in cand.iter_mut().enumerate().skip(*keep as usize) {
+                    *b = tail[i % 8] ^ (i as u8).wrapping_mul(ctr as u8 | 1);
+                }
+                cand[31] &= 0x7f;
+                if cand != orig && curve25519_dalek::ristretto::CompressedRistretto(cand).decompress().is_some() {
+                    *slot = cand;
+                    break;
+                }
+                ctr += 1;
+                if ctr > 4000 {
+                    break;
+                }
+            }
+            let twin = match RangeProof::from_bytes(&pf.encode()) {
+                Ok(p) => p,
+                Err(_) => c.proof.clone(),
+            };
+            let r = guarded(|| RangeProof::verify_batch(&mut [Transcript::new(b"c18")], &[c.st.clone()], &[twin], VerifyAction::VerifyOnly))?;
+            masks_digest(&r)
+        },
         Op::Codec { case } => {
             let c = &world.cases[pick(*case, n)];
             let bytes = c.proof.to_bytes();
@@ -278,7 +316,7 @@ pub fn oracle(_ctx: &RunCtx, spec: &SchedSpec, log: &mut CaseLog) -> Result<(), 
     }
     // ops whose stand-alone result is an error run first: a later success that "teaches" the process something (a memo of
     // verified proofs, say) then shows as a different result in the second pass
-    distinct.sort_by_key(|op| !matches!(op, Op::VerifyOtherContext { .. }));
+    distinct.sort_by_key(|op| !matches!(op, Op::VerifyOtherContext { .. } | Op::VerifyPrefixTwin { .. }));
     let mut base = std::collections::HashMap::new();
     for op in &distinct {
         base.insert(op.clone(), exec(&world, op).map_err(|e| format!("{} while executing {:?}", e, op))?);
@@ -368,6 +406,10 @@ pub struct ColdSpec {
     pub bits_idx: u8,
     pub cap_log: u8,
     pub delays: u64,
+    /// before the race, the child constructs parameters over ANOTHER point type built on the crate's public traits (the harness's
+    /// free module); the Ristretto results must not notice
+    #[serde(default)]
+    pub other_point_type_first: bool,
 }
 
 #[derive(Clone, Debug, Serialize, Deserialize, PartialEq, Eq)]
@@ -409,6 +451,13 @@ fn cold_thread(spec: &ColdSpec, t: usize) -> (Vec<String>, u64, u64, bool) {
 pub fn child_main(json_spec: &str) {
     let spec: ColdSpec = serde_json::from_str(json_spec).expect("cold spec");
     let n = spec.threads.max(1) as usize;
+    if spec.other_point_type_first {
+        use crate::eng::Engine;
+        for ext in [1usize, 6] {
+            let p = RangeParameters::<crate::fp::FP>::init(BITS[spec.bits_idx as usize % 4], 1usize << (spec.cap_log % 3), crate::eng::F::pedersen(ext)).expect("parameters over the free module");
+            let _ = p.gi_base_iter().count();
+        }
+    }
     let barrier = Arc::new(Barrier::new(n));
     let outs: Vec<(Vec<String>, u64, u64, bool)> = std::thread::scope(|s| {
         let hs: Vec<_> = (0..n)
@@ -479,11 +528,11 @@ pub fn def() -> PropertyDef {
         rule: "Three generators. (1) histories x schedules: a pool of 2-5 statements (aggregation 1-4, with / without seed) built from CLONES \
                OF ONE shared parameter object, and one generated history of 5-24 ops per thread for 1-16 threads (quick: <= 8), ops in {create \
                Pedersen generators, construct parameters (small, occasionally 64 x 16), prove(case, rng), verify(case, mode), verify under another context, verify a 2-batch whose second proof is valid / \
-               fails the final check / fails while being processed, encode+decode, prove(case) with a failed external RNG (all-zero, constant, 8-byte period, counter), verify a 3-4 batch whose later members carry statements over foreign parameters (other h, other g_0, other bit length, other degree - the refusal must be the same error value every time)}; every distinct op is first executed on the calling thread, \
+               fails the final check / fails while being processed, encode+decode, prove(case) with a failed external RNG (all-zero, constant, 8-byte period, counter), verify a 3-4 batch whose later members carry statements over foreign parameters (other h, other g_0, other bit length, other degree - the refusal must be the same error value every time), verify the case's proof with A / A1 / B replaced by another valid encoding that shares its first 8-31 bytes (run before the genuine proof is ever verified)}; every distinct op is first executed on the calling thread, \
                then the whole list again in reverse order (a result that depends on what ran before differs between the passes), then the \
                threads are released by a barrier with generated spin delays and every op's digest (proof bytes, Ok + masks or Err, generator \
                bytes) must equal the stand-alone digest. (2) cold child processes: 2-16 threads race the FIRST use of the lazily initialised \
-               generator statics with a generated order of degrees, construct parameters, prove and verify; results must equal a warm \
+               generator statics with a generated order of degrees, construct parameters, prove and verify - in half of the children after parameters over another point type (the harness's free module) were constructed; results must equal a warm \
                single-threaded run. (3) thorough tier: the minimal racing program under miri with seeded schedules \
                (data races / UB). Non-trivial = >= 2 threads or a repeated op; distinct by (threads, distinct ops, total ops, delay seed)."
             .into(),
@@ -513,6 +562,7 @@ pub fn def() -> PropertyDef {
                                 bits_idx: ((x >> 40) % 4) as u8,
                                 cap_log: ((x >> 44) % 3) as u8,
                                 delays: x,
+                                other_point_type_first: (x >> 50) % 2 == 0,
                             }
                         })
                         .collect()
